@@ -276,7 +276,7 @@ def handleCase (routes errs req named : String) : String :=
           `E<hex of the expression>` | `P<path>` | `-` (no matcher)                                -/
 
 def pathLen : Nat → Nat
-  | 0 => 1 | 1 => 2 | 2 => 4 | 3 => 2 | 4 => 2 | 5 => 4 | _ => 0
+  | 0 => 1 | 1 => 2 | 2 => 4 | 3 => 2 | 4 => 2 | 5 => 4 | 100 => 4 | _ => 0
 
 partial def pDir : P Dir := fun toks => do
   let (p, toks) ← pNat toks
@@ -338,7 +338,8 @@ def handleHE (sF pF blocksF : String) : String :=
 
 /-! op `hd`: a Caddyfile site made of nested `handle [<path>] { … }` blocks and `respond <status>`
 
-    hd <P> <nodes>       nodes = N node^N,  node = h PATH nodes | r ST      (PATH 0 = no matcher, k = path k-1)
+    hd <P> <nodes>       nodes = N node^N,  node = h PATH nodes | r ST      (PATH 0 = no matcher, k = path k-1,
+                                                                             7 = `handle_path /a/*`)
   answer  `hd s=<status|-> g=<group of every route, pre-order: number | ->`                       -/
 
 mutual
@@ -351,9 +352,9 @@ partial def pNode : P Node
     if st ≥ 1000 then none else pure (.respond (1000 + st), toks)
   | "h" :: toks => do
     let (p, toks) ← pNat toks
-    if p > 6 then none else
+    if p > 7 then none else
     let (body, toks) ← pNodes toks
-    pure (.handle (if p == 0 then none else some (p - 1)) body, toks)
+    pure (.handle (if p == 0 then none else if p == 7 then some 100 else some (p - 1)) body, toks)
   | _ => none
 partial def pNodes : P (List Node) := fun toks => do
   let (n, toks) ← pNat toks
@@ -373,8 +374,11 @@ def bodySorted : List Node → Bool
   | .handle _ _ :: .respond st :: rest => rest.isEmpty && bodySorted (.respond st :: rest)
   | .respond _ :: _ :: _ => false
 
+/-- no two handles with the same matcher; `handle_path /a/*` (100) not next to `/a/b` or `/a/c` (their
+    relative order is the adapter sort's business) -/
 def distinctPaths (ns : List Node) : Bool :=
-  distinct (ns.filterMap fun n => match n with | .handle (some p) _ => some p | _ => none)
+  let ps := ns.filterMap fun n => match n with | .handle (some p) _ => some p | _ => none
+  distinct ps && (!ps.contains 100 || (!ps.contains 2 && !ps.contains 5))
 
 mutual
 def nodesValid : Nat → List Node → Bool
